@@ -10,7 +10,7 @@ import z3
 import frontend
 import ops
 from ops import truthy, asz, zand, zor, znot
-from core import (SVal, TupleVal, LocalDict, FuncVal, ExcVal, KRef, KInt, KReal, KBool, CheckerError,
+from core import (CaughtExc, SVal, TupleVal, LocalDict, FuncVal, ExcVal, KRef, KInt, KReal, KBool, CheckerError,
                   fresh_name, I, B)
 from state import St, ALIVE
 from contracts import clause
@@ -20,15 +20,20 @@ from engine_stmt import StmtMixin, NEXT
 from engine_call import CallMixin
 from engine_prelude import PreludeMixin, LocalDictObj
 from engine_fold import FoldMixin
+from engine_fs import FsMixin
 
 
-class Engine(EngineBase, ExprMixin, StmtMixin, CallMixin, PreludeMixin, FoldMixin):
+class Engine(EngineBase, ExprMixin, StmtMixin, CallMixin, PreludeMixin, FoldMixin, FsMixin):
     St = St
     Frame = Frame
 
     def getattr(self, st, fr, base, attr):
         if isinstance(base, LocalDictObj):
             return [(st, base.d[attr])]
+        if isinstance(base, CaughtExc):
+            if base.exc.info and attr in base.exc.info:
+                return [(st, base.exc.info[attr])]
+            raise CheckerError('exception attribute %s' % attr)
         return ExprMixin.getattr(self, st, fr, base, attr)
 
     # ------------------------------------------------------------------
@@ -135,7 +140,7 @@ class Engine(EngineBase, ExprMixin, StmtMixin, CallMixin, PreludeMixin, FoldMixi
         sf = self.spec_frame(mod, c.qual, cname, entry_env, old=({}, entry_env))
         entry = St((), {}, {})
         for m in c.modifies:
-            if m in ('alloc', 'clock'):
+            if m in ('alloc', 'clock', 'fs'):
                 continue
             if isinstance(m, tuple):
                 cf, predtext = m
@@ -173,6 +178,10 @@ class Engine(EngineBase, ExprMixin, StmtMixin, CallMixin, PreludeMixin, FoldMixi
             init = self.H.initial(key, arr.sort().range())
             if arr.eq(init):
                 continue
+            if key[0].startswith('$fs.'):
+                if 'fs' not in c.modifies:
+                    self.oblige(st, '%s#frame[fs]' % c.qual, False, {'text': "changes the file system: add 'fs' to modifies"})
+                continue
             if key[0] == '$clock':
                 if 'clock' not in c.modifies:
                     self.oblige(st, '%s#frame[clock]' % c.qual, False, {'text': "reads the clock: add 'clock' to modifies"})
@@ -184,7 +193,7 @@ class Engine(EngineBase, ExprMixin, StmtMixin, CallMixin, PreludeMixin, FoldMixi
         if getattr(self, 'frame_ctx', None) is None:
             return
         for key in sorted(keys):
-            if key == ALIVE or key[0] == '$clock':
+            if key == ALIVE or key[0] == '$clock' or key[0].startswith('$fs.'):
                 continue
             arr = self.H.get(st.heap, key, None)
             f = self.frame_formula(st, key, arr)
@@ -205,7 +214,14 @@ def _solve_one(args):
     s = z3.Solver()
     s.set('timeout', timeout_ms if ob.kind != 'canary' else min(timeout_ms, 3000))
     s.set('random_seed', seed)
-    s.add(*ob.pc)
+    seen = set()
+    pcs = []
+    for c in ob.pc:                 # the path condition repeats typing facts many times: assert each once
+        i = c.get_id()
+        if i not in seen:
+            seen.add(i)
+            pcs.append(c)
+    s.add(*pcs)
     if ob.kind == 'canary':
         r = s.check()
         who = 'z3'
@@ -225,13 +241,18 @@ def _solve_one(args):
         r2, who = _external(smt2, 15, only='cvc5')
         if r2 == 'unsat':
             return idx, 'unsat', time.time() - t0, None, 'cvc5'
-        s2 = z3.Solver()
-        s2.set('timeout', timeout_ms)
-        s2.set('random_seed', seed + 1)
-        s2.add(*ob.pc)
-        s2.add(z3.Not(ob.goal))
-        r = s2.check()
-        s = s2
+        # z3 again with the full budget, then once more with the assertions in reverse order
+        # (its quantifier heuristics are sensitive to assertion order)
+        for attempt, order in enumerate((pcs, list(reversed(pcs)))):
+            s2 = z3.Solver()
+            s2.set('timeout', timeout_ms if attempt == 0 else max(timeout_ms // 2, 5000))
+            s2.set('random_seed', seed + 1 + attempt)
+            s2.add(z3.Not(ob.goal))
+            s2.add(*order)
+            r = s2.check()
+            s = s2
+            if r != z3.unknown:
+                break
     model = None
     smt2 = None
     if r == z3.sat:
@@ -320,7 +341,7 @@ def discharge(obs, timeout_ms=20000, procs=16, seed=0, ext_timeout_s=20, use_ext
                 if r == 'unknown' and isinstance(extra, tuple) and extra[1] and obs[idx].kind == 'ob':
                     ext.append((idx, extra[1]))
                 done.append(idx)
-            elif time.time() - t0 > (timeout_ms + 20000 if obs[idx].kind != 'canary' else min(timeout_ms, 3000) + 6000) / 1000.0 + grace:
+            elif time.time() - t0 > (timeout_ms * 1.5 + 25000 if obs[idx].kind != 'canary' else min(timeout_ms, 3000) + 6000) / 1000.0 + grace:
                 p.kill()
                 results[idx] = {'result': 'unknown', 'time': time.time() - t0, 'model': None, 'backend': 'z3(killed)'}
                 done.append(idx)
